@@ -1520,6 +1520,12 @@ class Intervals:
         # propagation through the usual adapters
         if len(args_ops) >= 1:
             src = op_local(args_ops[0])
+            if src is not None and src not in st.vf and atys and atys[0].startswith("&"):
+                # `opt.is_some()` / `res.as_ref()` take a reference to the enum local
+                sd = self.body.single_def(src)
+                if sd is not None and not isinstance(sd[2], Term) and sd[2][0] == "ref" and not sd[2][2][1] and sd[2][2][0] in st.vf:
+                    src = sd[2][2][0]
+                    atys = [atys[0].lstrip("&").replace("mut ", "", 1)] + list(atys[1:])
             if src is not None and src in st.vf and atys:
                 v = st.vf[src]
                 sv = some_or_ok(atys[0])
